@@ -2,6 +2,7 @@ import LenaModel.DriverUtil
 import LenaModel.Model.C15
 import LenaModel.Model.C15Spec
 import LenaModel.Model.C15Key
+import LenaModel.Model.C15Pred
 /-! Model driver for C15.  Every request carries `"names"`: the key alphabet of the case.
 A context is a JSON object (nested; scalars null / bool / int / string; `["obj", s]` = an object json cannot
 encode whose `str()` is `s` — the harness also sends a list / tuple / set found in a context this way: lena
@@ -14,6 +15,11 @@ Specifications:
   {"t":"str","s":"a.b"} {"t":"cls","c":"int"} {"t":"fn","f":NAME} {"t":"list","l":[..]} {"t":"tuple","l":[..]}
   {"t":"not","s":SPEC,"roe":b} {"t":"sel","s":SPEC,"roe":b} {"t":"and","l":[..],"roe":b} {"t":"or","l":[..],"roe":b}
   {"t":"selctx","key":KEY,"pred":NAME,"roe":b} {"t":"bad"}
+  a "fn" / "selctx" specification may carry "as": what kind of Python object the callable is (`kindOf`:
+  "function" | "builtin" | "instance" | "method" | "partial" — plain callables; {"cls": CLASS} — a class called
+  as a converter; "callstr" | "calllist" | "calltuple" — an instance of a str / list / tuple subclass with
+  `__call__`; "selector" — a lena Selector instance); both are built through `Callable.asSpec` / `selectContext`
+  of `Model/C15Pred.lean`
   KEY = "a.b" | ["a","b"] | [.., 5, ..] (an item that is no string) |
         {"dict":["a","b"],"tail":"stop"|"multi"|{"key":"c"}|{"key":null}}
 
@@ -69,6 +75,17 @@ def fnTable : String → Option (Item → Res)
   | "data" => some (fun v => .ok (match v.data with     -- `lambda v: get_data(v)`: selected iff the data is true
       | .none => false | .bool b => b | .int i => i != 0 | .str s => s != "" | .tuple => true
       | .other _ => true))                                 -- the instances the harness builds are all true
+  -- the builtin `len` applied to the value: a (data, context) pair has length 2; a bare value is its data
+  | "b_len" => some (fun v =>
+      match v.ctx with
+      | some _ => .ok true
+      | none =>
+        match v.data with
+        | .str s => .ok (s != "")
+        | .tuple => .ok true                               -- (1, 2)
+        -- the instances the harness builds: {"x": 1}, [1, 2], Str("s"), Point(1, 2)
+        | .other .dict | .other .list | .other .strSub | .other .namedTuple => .ok true
+        | _ => .raise "Other:TypeError")
   | _ => none
 
 def predTable : String → Option (Val → Res)
@@ -93,6 +110,28 @@ def predTable : String → Option (Val → Res)
   | "raise_attr" => some (fun _ => .raise "Other:AttributeError")
   | "raise_custom" => some (fun _ => .raise "Other:_Custom")
   | "raise_stop" => some (fun _ => .raise "Other:StopIteration")
+  -- classes and builtins as predicates (`Model/C15Pred.lean`): bool, str, len / list, dict, abs, int, float
+  | "c_bool" => some pyBool
+  | "c_str" => some pyStrT
+  | "b_len" => some pyLen
+  | "c_list" => some pyLen
+  | "c_dict" => some pyDict
+  | "b_abs" => some pyAbs
+  | "c_int" => some (pyInt [])
+  | "c_float" => some (pyInt ["1.5", "1e3"])
+  -- a user class as a validator: `class Positive: def __init__(self, x): if not x > 0: raise ValueError`
+  | "c_pos" => some (fun v =>
+      match v with
+      | .leaf (.int i) => if i > 0 then .ok true else .raise "Other:ValueError"
+      | .leaf (.bool b) => if b then .ok true else .raise "Other:ValueError"
+      | _ => .raise "Other:TypeError")
+  -- a bound method of a builtin object: `(1, "ab").__contains__`
+  | "m_in" => some (fun v =>
+      match v with
+      | .leaf (.int i) => .ok (decide (i = 1))
+      | .leaf (.bool b) => .ok b
+      | .leaf (.str s) => .ok (s == "ab")
+      | _ => .ok false)
   | _ => none
 
 def clsTable : String → Option PyClass
@@ -200,7 +239,13 @@ partial def specOf (j : Json) : Option Spec := do
   match t with
   | "str" => (str? (getD j "s")).map .str
   | "cls" => (str? (getD j "c")).bind clsTable |>.map .cls
-  | "fn" => (str? (getD j "f")).bind fnTable |>.map .fn
+  | "fn" => do
+      let k ← kindOf (getD j "as")
+      let f ← (str? (getD j "f")).bind fnTable
+      -- the harness gives classes to `Selector` as {"t":"cls"}; a callable of any other kind is applied
+      match k with
+      | .cls _ => none
+      | _ => pure (Callable.asSpec ⟨k, f⟩)
   | "list" => do let l ← (← arr? (getD j "l")).toList.mapM specOf; pure (.list l)
   | "tuple" => do let l ← (← arr? (getD j "l")).toList.mapM specOf; pure (.tuple l)
   | "not" => do pure (.notI (← specOf (getD j "s")) (← bool? (getD j "roe")))
@@ -208,8 +253,21 @@ partial def specOf (j : Json) : Option Spec := do
   | "and" => do let l ← (← arr? (getD j "l")).toList.mapM specOf; pure (.andI l (← bool? (getD j "roe")))
   | "or" => do let l ← (← arr? (getD j "l")).toList.mapM specOf; pure (.orI l (← bool? (getD j "roe")))
   | "selctx" => do
-      pure (.selCtx (← keyArg? (getD j "key")) (← (str? (getD j "pred")).bind predTable) (← bool? (getD j "roe")))
+      let k ← kindOf (getD j "as")
+      pure (selectContext (← keyArg? (getD j "key")) ⟨k, ← (str? (getD j "pred")).bind predTable⟩ (← bool? (getD j "roe")))
   | "bad" => pure .bad
+  | _ => none
+
+/-- the "as" field of a "fn" / "selctx" specification -/
+def kindOf (j : Json) : Option CallKind :=
+  match j with
+  | .null => some .plain
+  | .str "function" | .str "builtin" | .str "instance" | .str "method" | .str "partial" => some .plain
+  | .str "callstr" => some (.strLike "a")
+  | .str "calllist" => some .listLike
+  | .str "calltuple" => some .tupleLike
+  | .str "selector" => some .selectorInst
+  | .obj _ => ((str? (getD j "cls")).bind clsTable).map .cls
   | _ => none
 
 def resJson : Res → Json
